@@ -989,6 +989,22 @@ func evalHistory(c *historyCase, st *stats) *harness.Fail {
 				}
 				return fail
 			}
+			// the same structures encoded once more (the other encoder every other time): the same bytes; what the
+			// first encoding did to them (optimisation rewrites tfhd and trun) must not show in the second
+			if !c.TrexDrop {
+				again, fail2 := encodeAll(b, useSW != (len(c.Ops)%2 == 0), encOpt)
+				if fail2 != nil {
+					fail2.Msg = vname + " (second encoding of the same structures): " + fail2.Msg
+					return fail2
+				}
+				if !bytes.Equal(again, file) {
+					d := 0
+					for d < len(again) && d < len(file) && again[d] == file[d] {
+						d++
+					}
+					return harness.Failf("C05|second encoding of the same structures|bytes differ from the first encoding", "%s: %d bytes then %d bytes, first difference at %d", vname, len(file), len(again), d)
+				}
+			}
 			st.variants++
 			if opt != mp4.OptimizeNone {
 				for _, s := range b.segs {
